@@ -3,7 +3,7 @@
 use super::*;
 use crate::chess_spec as sp;
 use crate::verif_common::*;
-use super::zobrist::verif_zobrist::{mk_zobrist, pos_of_z, spec_hash, hash_of_z, features_of, features_xor, delta};
+use super::zobrist::verif_zobrist::{mk_zobrist, pos_of_z, spec_hash, hash_of_z, same_outside, delta_hash, features_of, features_xor, delta};
 
 // ---- abstraction function and representation invariant ----------------------------------------
 pub(crate) fn pos_of(b: &Board) -> sp::Pos {
@@ -22,8 +22,12 @@ pub(crate) fn mk_board_h(p: &sp::Pos) -> Board {
 }
 /// same, but with an arbitrary stored hash (for obligations that do not depend on the hash)
 pub(crate) fn mk_board(p: &sp::Pos) -> Board {
+    // under verification the stored hash is arbitrary (hash obligations use the writer contracts);
+    // in a concrete replay against the real code (test build) it is the position's real hash
+    let h_any: u64 = kani::any();
+    let h = if cfg!(test) { spec_hash(p) } else { h_any };
     Board {
-        inner: mk_zobrist(p, kani::any()),
+        inner: mk_zobrist(p, h),
         pinned: BitBoard(sp::spec_pinned(p, p.stm)),
         checkers: BitBoard(sp::spec_checkers(p, p.stm)),
         halfmove_clock: p.halfmove,
@@ -160,17 +164,21 @@ board_proof! {
     }
 }
 
-// O-C10.null: the hash after a null move is the hash of the resulting position (feature accounting
-// through the writer contracts)
-hash_proof! {
+// O-C10.null: the hash after a null move is the hash of the resulting position (real key arithmetic:
+// placement untouched, hash delta == keys of the changed side / EP features)
+board_proof! {
     fn c10_null_hash() {
         let p = any_inv_pos();
         let b = mk_board(&p);
+        let h0 = hash_of_z(&b.inner);
         cut_on();
         set_inv_off();
         if let Some(n) = b.null_move() {
             let q = pos_of(&n);
-            assert!(features_xor(&features_of(&p), &delta()) == features_of(&q));
+            let none = [0u8; 5];
+            assert!(sp::same_placement(&p, &q));
+            assert!(hash_of_z(&n.inner) == h0 ^ delta_hash(&p, &q, &none) ^ 0);
+            kani::cover!(p.ep < 8);
         }
     }
 }
@@ -224,19 +232,49 @@ fn play_post_accept(kind: u8) {
 fn play_post_hash(kind: u8) {
     let (p, m) = any_legal(kind);
     let mut b = mk_board(&p);
+    let h0 = hash_of_z(&b.inner);
+    cut_on();
+    set_inv_off();
+    b.play_unchecked(m);
+    let q = pos_of(&b);
+    // the squares a move can touch: origin, destination, en-passant victim, castling destinations
+    let mv = mv_of(m);
+    let c = p.stm;
+    let back = sp::rel_rank(0, c);
+    let victim = if p.ep < 8 { sp::sq_of(p.ep, sp::rel_rank(3, 1 - c)) } else { mv.from };
+    let short = sp::file_of(mv.to) > sp::file_of(mv.from);
+    let kd = sp::sq_of(if short { 6 } else { 2 }, back);
+    let rd = sp::sq_of(if short { 5 } else { 3 }, back);
+    let touched = if kind == 6 { [mv.from, mv.to, kd, rd, mv.from] } else { [mv.from, mv.to, victim, mv.from, mv.from] };
+    assert!(same_outside(&p, &q, &touched));
+    assert!(hash_of_z(&b.inner) == h0 ^ delta_hash(&p, &q, &touched));
+}
+
+/// hash accounting through the writer contracts (fast; applicable while the four writers are the only
+/// code that writes the hash field — checked mechanically by the driver on every run)
+fn play_post_hash_ghost(kind: u8) {
+    let (p, m) = any_legal(kind);
+    let mut b = mk_board(&p);
     cut_on();
     set_inv_off();
     b.play_unchecked(m);
     let q = pos_of(&b);
     assert!(features_xor(&features_of(&p), &delta()) == features_of(&q));
 }
+hash_proof! { fn c10g_play_pawn() { play_post_hash_ghost(0); } }
+hash_proof! { fn c10g_play_knight() { play_post_hash_ghost(1); } }
+hash_proof! { fn c10g_play_bishop() { play_post_hash_ghost(2); } }
+hash_proof! { fn c10g_play_rook() { play_post_hash_ghost(3); } }
+hash_proof! { fn c10g_play_queen() { play_post_hash_ghost(4); } }
+hash_proof! { fn c10g_play_king() { play_post_hash_ghost(5); } }
+hash_proof! { fn c10g_play_castle() { play_post_hash_ghost(6); } }
 
 macro_rules! play_family {
     ($($k:expr => $pos:ident, $der:ident, $acc:ident, $hash:ident;)*) => {$(
         board_proof! { fn $pos() { play_post_position($k); } }
         board_proof! { fn $der() { play_post_derived($k); } }
         board_proof! { fn $acc() { play_post_accept($k); } }
-        hash_proof! { fn $hash() { play_post_hash($k); } }
+        board_proof! { fn $hash() { play_post_hash($k); } }
     )*};
 }
 play_family! {
@@ -247,4 +285,139 @@ play_family! {
     4 => c02_play_queen, c03_play_queen, c06_play_queen, c10_play_queen;
     5 => c02_play_king, c03_play_king, c06_play_king, c10_play_king;
     6 => c02_play_castle, c03_play_castle, c06_play_castle, c10_play_castle;
+}
+
+// =====================================================================================================
+// C15 — checked play.  is_legal and play_unchecked are replaced by RECORDING contract stubs (their own
+// contracts are O-C04.* and O-C02/C03/C10.*): try_play must consult the legality query with the move it
+// was given, refuse exactly when the answer is no without touching the board, and otherwise leave the
+// board exactly as play_unchecked produced it.
+pub(crate) static mut ORACLE_LEGAL: bool = false;
+pub(crate) static mut ASKED: u32 = 0;
+pub(crate) static mut ASKED_MV: sp::Mv = sp::Mv { from: 0, to: 0, promo: 6 };
+pub(crate) static mut ASKED_ON: u64 = 0; // fingerprint (colour bitboard) of the board the query was made on
+pub(crate) static mut PLAYED: u32 = 0;
+pub(crate) static mut PLAYED_MV: sp::Mv = sp::Mv { from: 0, to: 0, promo: 6 };
+pub(crate) static mut AFTER: u64 = 0; // what the play_unchecked stub writes into the board
+
+pub(crate) fn rec_is_legal(b: &Board, mv: Move) -> bool {
+    unsafe {
+        ASKED += 1;
+        ASKED_MV = mv_of(mv);
+        ASKED_ON = b.inner.colors(Color::White).0;
+        ORACLE_LEGAL
+    }
+}
+pub(crate) fn rec_play_unchecked(b: &mut Board, mv: Move) {
+    unsafe {
+        PLAYED += 1;
+        PLAYED_MV = mv_of(mv);
+        // a recognisable, otherwise arbitrary effect
+        b.pinned = BitBoard(AFTER);
+    }
+}
+fn same_board(a: &Board, b: &Board) -> bool {
+    pos_of(a) == pos_of(b) && a.checkers == b.checkers && a.pinned == b.pinned
+        && hash_of_z(&a.inner) == hash_of_z(&b.inner) && *a == *b
+}
+fn checked_play_setup() -> (Board, Move) {
+    let p = any_pos_raw();
+    let mut b = mk_board(&p);
+    b.pinned = BitBoard(kani::any());
+    b.checkers = BitBoard(kani::any());
+    let m = any_move();
+    unsafe { ORACLE_LEGAL = kani::any(); AFTER = kani::any(); ASKED = 0; PLAYED = 0; }
+    (b, m)
+}
+
+#[kani::proof]
+#[kani::stub(crate::board::Board::is_legal, rec_is_legal)]
+#[kani::stub(crate::board::Board::play_unchecked, rec_play_unchecked)]
+fn c15_try_play() {
+    let (b0, m) = checked_play_setup();
+    let mut b = b0.clone();
+    let r = b.try_play(m);
+    unsafe {
+        // the legality query was consulted exactly once, with this move, on the untouched board
+        assert!(ASKED == 1 && ASKED_MV == mv_of(m) && ASKED_ON == b0.inner.colors(Color::White).0);
+        if ORACLE_LEGAL {
+            assert!(r.is_ok());
+            assert!(PLAYED == 1 && PLAYED_MV == mv_of(m));
+            // identical to what unchecked play produced from the original board
+            let mut expect = b0.clone();
+            expect.pinned = BitBoard(AFTER);
+            assert!(same_board(&b, &expect));
+        } else {
+            assert!(r.is_err());
+            assert!(PLAYED == 0);
+            assert!(same_board(&b, &b0));
+        }
+    }
+}
+
+#[kani::proof]
+#[kani::stub(crate::board::Board::is_legal, rec_is_legal)]
+#[kani::stub(crate::board::Board::play_unchecked, rec_play_unchecked)]
+fn c15_play_legal_no_panic() {
+    let (b0, m) = checked_play_setup();
+    unsafe { ORACLE_LEGAL = true; }
+    let mut b = b0.clone();
+    b.play(m);
+    unsafe {
+        assert!(PLAYED == 1 && PLAYED_MV == mv_of(m));
+        let mut expect = b0.clone();
+        expect.pinned = BitBoard(AFTER);
+        assert!(same_board(&b, &expect));
+    }
+}
+
+#[kani::proof]
+#[kani::should_panic]
+#[kani::stub(crate::board::Board::is_legal, rec_is_legal)]
+#[kani::stub(crate::board::Board::play_unchecked, rec_play_unchecked)]
+fn c15_play_illegal_panics() {
+    let (b0, m) = checked_play_setup();
+    unsafe { ORACLE_LEGAL = false; }
+    let mut b = b0.clone();
+    b.play(m);
+    // not reached: if play returned without panicking the harness would end here WITHOUT a panic and
+    // Kani reports the should_panic harness as failed
+}
+
+// =====================================================================================================
+// C13 — same_position.  is_legal is replaced by its contract (O-C04.*: == legality by the rules), the
+// EP-less hash by its contract (C10: a function of the position without the EP file).
+pub(crate) static mut HA: u64 = 0;
+pub(crate) static mut HB: u64 = 0;
+pub(crate) static mut PA_WHITE: u64 = 0;
+pub(crate) static mut IS_A_TAG: u16 = 0;
+pub(crate) fn ct_is_legal(b: &Board, mv: Move) -> bool {
+    sp::spec_legal(&pos_of(b), mv_of(mv))
+}
+pub(crate) fn ct_hash_without_ep(b: &Board) -> u64 {
+    // boards are told apart by the full-move number, which the harness makes distinct
+    unsafe { if b.fullmove_number == IS_A_TAG { HA } else { HB } }
+}
+board_proof! {
+    #[kani::unwind(9)]
+    #[kani::stub(crate::board::Board::is_legal, ct_is_legal)]
+    #[kani::stub(crate::board::Board::hash_without_ep, ct_hash_without_ep)]
+    fn c13_same_position() {
+        let pa = any_inv_pos();
+        let pb = any_inv_pos();
+        kani::assume(pa.fullmove != pb.fullmove);
+        let (a, b) = (mk_board(&pa), mk_board(&pb));
+        unsafe {
+            HA = kani::any();
+            HB = kani::any();
+            IS_A_TAG = pa.fullmove;
+            // C10: the EP-less hash is a function of placement, side and rights
+            let same_noep = sp::same_placement(&pa, &pb) && pa.stm == pb.stm && sp::same_rights(&pa, &pb);
+            kani::assume(!same_noep || HA == HB);
+        }
+        let r = a.same_position(&b);
+        assert!(r == sp::spec_same_position(&pa, &pb));
+        kani::cover!(r && pa.ep != pb.ep);
+        kani::cover!(!r && sp::same_placement(&pa, &pb) && pa.stm == pb.stm && sp::same_rights(&pa, &pb));
+    }
 }
